@@ -16,8 +16,8 @@ import math
 import os
 from fractions import Fraction
 
-from harness import core
-from harness.props import c06, c07
+from harness import core, facts
+from harness.props import c06, c07, c08_tie
 
 FLAGS = ['return_tail_probs', 'return_expected', 'return_expected_set', 'return_calculator']
 KW = {'default': {}, 'q': {'test_stat': 'q'}, 'q0': {'test_stat': 'q0'}}
@@ -31,6 +31,13 @@ Import ListNotations.
 
 
 # ---------------------------------------------------------------------------------------
+def extract(ctx):
+    """tie to the source: gen/HypotestGen.v (tail of hypotest, prerequisites) and gen/AsymptGen.v (Asimov POI value); raises facts.TieBroken"""
+    a = c07.extract(ctx)
+    h = c08_tie.extract(ctx)
+    return dict(files=[h['file'], a['file']], definitions=h['definitions'] + ['gen_asimov_mu'])
+
+
 def fl(tb, x):
     v = tb.tolist(x) if not isinstance(x, (int, float)) else x
     while isinstance(v, list):
@@ -349,12 +356,23 @@ def load_corpus():
 def run(ctx):
     rng = ctx.rng
     tie = None
-    ok, txt = core.prove(ctx)
-    if not ok:
-        tie = 'proof obligations of props/C08.v no longer check: ' + txt[-1200:]
+    try:
+        ctx.coverage['translated_from_source'] = extract(ctx)
+    except facts.TieBroken as e:
+        tie = 'translation of pyhf/infer/__init__.py (hypotest) to Gallina failed (harness/props/c08.py:extract): %s' % e
+    if tie is None:
+        ok, txt = core.prove(ctx)
+        if not ok:
+            why = ('the functions translated from the source no longer coincide with the hand model (coq/TieHypotest.v, C08_source_is_model_*): '
+                   if ('Tie' in txt or 'source_is_model' in txt or 'Gen.v' in txt) else 'proof obligations of props/C08.v no longer check: ')
+            tie = why + txt[-1200:]
     rc, mout, _ = core.coq_make(['HypotestRun.vo', 'TestStat.vo'])
     if rc != 0:
         tie = tie or ('coq/HypotestRun.v does not build: ' + mout[-800:])
+    model_ok = rc == 0          # the hand model is run for the correspondence even when a tie theorem no longer checks
+    ctx.trusted += ['harness/props/c08_tie.py + harness/props/tie_translate.py (python ast -> Gallina for the tail of hypotest: returned sequence by flags, '
+                    'singleton unwrapping, is_q0; _check_hypotest_prerequisites with utils.all_pois_floating; the Asimov POI value of '
+                    'AsymptoticCalculator.teststatistic; fail closed): C08_source_is_model_* prove the translated definitions equal to the hand model']
     ctx.trusted += ['harness/props/c08.py: classification of the returned python value (tuple / list / 0-d tensor / calculator object); the '
                     'reference quantities for the layout come from a calculator driven through its documented methods with the same seed',
                     'SLSQP (scipy) behind the real fits of the counting models; closed-form q, q_A certified by Interval at the summed counts '
@@ -383,7 +401,7 @@ def run(ctx):
         sf = [bool(x) for x in c['model'].config.suggested_fixed()]
         lexprs.append(layout_expr(c['model'].config.poi_index, c['fixed'], sf, CT[c['ct']], False, c['flags']))
     lmodels = None
-    if tie is None:
+    if model_ok:
         try:
             res = core.coq_eval(ctx, 'layout', HEADER, lexprs, shard=200)
             lmodels = [decode_layout(r) for r in res]
@@ -510,7 +528,7 @@ def run(ctx):
                         fails.setdefault('counting:pvalue:%s:%s' % (name.split('.')[1].split('[')[0], c['kind']), []).append(
                             (case, o, {name: str(want[name])}, '%s = %r, the asymptotic formulae at q=%r, qA=%r give %s' % (name, g, o['q'], o['qA'], want[name])))
     rejected = set()
-    if tie is None:
+    if model_ok:
         try:
             rejected = c06.certify(ctx, 'counting', items)
             stats['counting_goals'] = len(items)
